@@ -215,3 +215,87 @@ def generator_for(key, c):
                 args.append(v)
         return Case(fn, params, args, kwargs)
     return g
+
+
+# ----------------------------------------------------------------------------- tracing (C20)
+def _random_traces(rng):
+    names = ['f', 'g', 'step', 'func_timer', 'a_b', 'reduce']
+    rng.shuffle(names)
+    d = {}
+    for n in names[: rng.randrange(0, 5)]:
+        d[n] = [rng.choice([0.5, 1.0, 0.25, 3.0, 1e-3, rng.uniform(0, 2)]) for _ in range(rng.randrange(1, 7))]
+    return d
+
+
+def _install_traces(rng):
+    import kfac.tracing as T
+    T._func_traces.clear()
+    T._func_traces.update(_random_traces(rng))
+    return T
+
+
+@gen('kfac.tracing:get_trace')
+def _gen_get_trace(rng, model):
+    T = _install_traces(rng)
+    average = rng.random() < 0.5
+    mh = rng.choice([None, 1, 2, 3, 5, 10])
+    return Case(T.get_trace, {'average': average, 'max_history': mh, '_func_traces': T._func_traces},
+                [average, mh], {})
+
+
+@gen('kfac.tracing:clear_trace')
+def _gen_clear(rng, model):
+    T = _install_traces(rng)
+    return Case(T.clear_trace, {'_func_traces': T._func_traces}, [], {})
+
+
+@gen('kfac.tracing:trace.decorator.func_timer')
+def _gen_func_timer(rng, model):
+    import time as _time
+    import torch.distributed as dist
+    from harness.specfuncs_rt import H, fake_time
+    T = _install_traces(rng)
+    H.calls, H.clock_reads, H.clock_values = 0, 0, []
+    fname = rng.choice(['f', 'g', 'step', 'newname'])
+    mode = rng.randrange(3)
+
+    def impl(*a, **k):
+        if mode == 1 and (len(a) + len(k)) % 2 == 1:
+            raise KeyError('boom')
+        if mode == 2:
+            return None
+        return ('ret', a, tuple(sorted(k.items())))
+
+    def func(*a, **k):
+        H.calls += 1
+        return impl(*a, **k)
+    func.__name__ = fname
+    H.pure_impl[id(func)] = impl
+    sync = rng.random() < 0.3
+    timer = T.trace(sync=sync)(func)
+    args = tuple(rng.choice([1, 'x', None, 2.5]) for _ in range(rng.randrange(0, 3)))
+    kwargs = {k: rng.choice([1, 'y']) for k in rng.sample(['p', 'q'], rng.randrange(0, 3))}
+
+    def run(*a, **k):
+        real_time, real_barrier = _time.time, dist.barrier
+        T.time.time = fake_time
+        dist.barrier = lambda *aa, **kk: None
+        try:
+            return timer(*a, **k)
+        finally:
+            T.time.time = real_time
+            dist.barrier = real_barrier
+    # history before the checked call: earlier calls of the same traced function, clears
+    hist = []
+    for _ in range(rng.randrange(0, 4)):
+        if rng.random() < 0.6:
+            try:
+                run(*[7] * rng.randrange(0, 3))
+            except Exception:
+                pass
+            hist.append('call')
+        else:
+            T.clear_trace()
+            hist.append('clear')
+    return Case(run, {'func': func, 'sync': sync, 'args': args, 'kwargs': kwargs,
+                      '_func_traces': T._func_traces}, list(args), kwargs, note='history=' + ','.join(hist))
